@@ -41,6 +41,7 @@ type VerifC05Op struct {
 	Parts []VerifC05Part `json:"parts"`
 	Grp   int            `json:"grp"` // merged-read entity id for Mrg parts
 	After [][2]int       `json:"after"` // do not start before client [0] has finished its op [1]
+	Held0 bool           `json:"held0"` // do not start before client 0 is held at the gate's hook point
 	Sync  int            `json:"sync"`  // > 0: spin until all clients have reached their op with this round number
 	// setns: write dataset D's meta entity with new publicNamespaces into core.Dataset
 	// upload: parse a JSON body whose @context introduces the namespace of round Sync and store its one entity into Parts[0].D
@@ -508,7 +509,7 @@ func vc05Execute(env *vc05Env, threads [][]VerifC05Op, kbase int, forced bool, w
 			defer wg.Done()
 			rec.tids.Store(vc05Gid(), t)
 			<-start
-			if (forced || c.Gate == "race" || c.Gate == "nsrace" || c.Gate == "renrace") && t == 1 {
+			if (forced || c.Gate == "race" || c.Gate == "nsrace") && t == 1 {
 				<-rec.t0Has
 			}
 			for i, op := range threads[t] {
@@ -518,6 +519,9 @@ func vc05Execute(env *vc05Env, threads [][]VerifC05Op, kbase int, forced bool, w
 						env.doneCv.Wait()
 					}
 					env.doneMu.Unlock()
+				}
+				if op.Held0 {
+					<-rec.t0Has
 				}
 				if op.Sync > 0 && op.Sync < len(env.rounds) {
 					atomic.AddInt32(&env.rounds[op.Sync], 1)
